@@ -38,10 +38,10 @@ type yaccRule struct {
 
 type yaccAction struct {
 	Default bool // no action in the grammar: the default $$ = $1
-	N    int
-	K    int
-	Body string // generated case body
-	Rule *yaccRule
+	N       int
+	K       int
+	Body    string // generated case body
+	Rule    *yaccRule
 }
 
 type yaccInfo struct {
